@@ -523,6 +523,13 @@ class Inliner:
             for (m, c, n), hh in self.helpers.items():
                 if c is not None and n == f.attr:
                     recv_ok = (f.value.id == me and c in self._ancestors(cls.name)) or (hh.static and f.value.id in (c, me))
+                    if not recv_ok and c in self._ancestors(cls.name) and f.value.id != me:
+                        # the receiver is a local bound once to a fresh instance of the enclosing class: `obj = cls(...)` in a classmethod / `obj = Cls(...)`
+                        binds = [n for n in ast.walk(fn) if isinstance(n, ast.Assign) and any(isinstance(t, ast.Name) and t.id == f.value.id for t in n.targets)]
+                        stores = sum(1 for n in ast.walk(fn) if isinstance(n, ast.Name) and n.id == f.value.id and isinstance(n.ctx, ast.Store))
+                        if len(binds) == 1 and stores == 1 and isinstance(binds[0].value, ast.Call) and isinstance(binds[0].value.func, ast.Name) \
+                                and binds[0].value.func.id in ((me,) if any(ast.unparse(d) == "classmethod" for d in fn.decorator_list) else ()) + (cls.name,):
+                            recv_ok = True
                     if recv_ok:
                         return hh
         return None
@@ -1201,6 +1208,47 @@ def _unroll_literal_comprehensions(mods: dict[str, Module], log: list[str]) -> N
             log.append(f"{mod.relpath}: {t.n} comprehension(s) over a literal display spelled out")
 
 
+def _split_parallel_assign(mods: dict[str, Module], log: list[str]) -> None:
+    """`a, b = (x, y)` (same length, no starred, no target read by a later right-hand side) is read as `a = x; b = y`."""
+    for mod in mods.values():
+        n_split = 0
+        for q, _, fn in _functions_of(mod):
+            work: list[ast.AST] = [fn]
+            while work:
+                node = work.pop()
+                blocks = [getattr(node, fld) for fld in ("body", "orelse", "finalbody") if isinstance(getattr(node, fld, None), list)]
+                if isinstance(node, ast.Try):
+                    blocks += [h.body for h in node.handlers]
+                for b in blocks:
+                    i = 0
+                    while i < len(b):
+                        st = b[i]
+                        if isinstance(st, ast.Assign) and len(st.targets) == 1 and isinstance(st.targets[0], (ast.Tuple, ast.List)) and isinstance(st.value, (ast.Tuple, ast.List)) \
+                                and len(st.targets[0].elts) == len(st.value.elts) >= 2 and not any(isinstance(x, ast.Starred) for x in [*st.targets[0].elts, *st.value.elts]):
+                            tg, vs = st.targets[0].elts, st.value.elts
+                            roots = []
+                            for t in tg:
+                                r = t
+                                while isinstance(r, (ast.Attribute, ast.Subscript)):
+                                    r = r.value
+                                roots.append((ast.unparse(t), r.id if isinstance(r, ast.Name) and not isinstance(t, ast.Name) else None))
+                            safe = all(_pure(v) for v in vs)
+                            for k, (ttxt, _) in enumerate(roots):
+                                for v in vs[k + 1:]:
+                                    if any(ast.unparse(x) == ttxt for x in ast.walk(v) if isinstance(x, (ast.Name, ast.Attribute, ast.Subscript))):
+                                        safe = False
+                            if safe:
+                                b[i:i + 1] = [ast.fix_missing_locations(ast.copy_location(ast.Assign(targets=[t], value=v), st)) for t, v in zip(tg, vs)]
+                                n_split += 1
+                                i += len(tg)
+                                continue
+                        if isinstance(st, ast.stmt) and not isinstance(st, (*FuncNode, ast.ClassDef)):
+                            work.append(st)
+                        i += 1
+        if n_split:
+            log.append(f"{mod.relpath}: {n_split} parallel assignment(s) of a tuple display read as a sequence of assignments")
+
+
 def _split_conditional_with(mods: dict[str, Module], log: list[str]) -> None:
     """`with f(x, mode=A if c else B) as v: body` with a pure test `c` is read as `if c: with f(.., A): body else: with f(.., B): body`, and inside a branch
     taken under `c` (resp. `not c`) a nested `if c:` keeps only the branch that can run."""
@@ -1309,6 +1357,260 @@ def _inline_new_constants(mods: dict[str, Module], inv: dict, log: list[str]) ->
                 sub2 = _Subst({local: new_consts[orig] for local, orig in imported.items()})
                 other.tree.body = [st if isinstance(st, (ast.Import, ast.ImportFrom)) else sub2.visit(st) for st in other.tree.body]
         log.append(f"{mod.relpath}: new literal constants read as their values: {sorted(new_consts)}")
+
+
+# ---------------------------------------------------------------------------------------------------- records
+def _record_classes(mods: dict[str, Module], inv: dict) -> dict[str, list[tuple[str, ast.expr | None]]]:
+    """New (not in the reference inventory) NamedTuple / dataclass classes without methods: name -> [(field, default)] in declaration order."""
+    out: dict[str, list[tuple[str, ast.expr | None]]] = {}
+    seen: dict[str, int] = {}
+    for mod in mods.values():
+        for node in ast.walk(mod.tree):
+            if isinstance(node, ast.ClassDef):
+                seen[node.name] = seen.get(node.name, 0) + 1
+    for mod in mods.values():
+        old = inv["modules"].get(mod.name)
+        for node in mod.tree.body:
+            if not isinstance(node, ast.ClassDef) or (old is not None and node.name in old["classes"]) or seen.get(node.name, 0) != 1:
+                continue
+            bases = [ast.unparse(b).split(".")[-1] for b in node.bases]
+            deco = [ast.unparse(d.func if isinstance(d, ast.Call) else d).split(".")[-1] for d in node.decorator_list]
+            if "NamedTuple" not in bases and "dataclass" not in deco:
+                continue
+            fields: list[tuple[str, ast.expr | None]] = []
+            ok = True
+            for st in node.body:
+                if isinstance(st, ast.AnnAssign) and isinstance(st.target, ast.Name):
+                    if "ClassVar" in ast.unparse(st.annotation):
+                        continue
+                    fields.append((st.target.id, st.value))
+                elif isinstance(st, ast.Expr) and isinstance(st.value, ast.Constant):
+                    continue  # docstring
+                elif isinstance(st, ast.Pass):
+                    continue
+                else:
+                    ok = False  # methods / properties: the record is more than a bundle of values
+            if ok and fields:
+                out[node.name] = fields
+    return out
+
+
+def _record_args(fields: list[tuple[str, ast.expr | None]], call: ast.Call) -> list[ast.expr] | None:
+    if any(isinstance(a, ast.Starred) for a in call.args) or any(k.arg is None for k in call.keywords) or len(call.args) > len(fields):
+        return None
+    vals: dict[str, ast.expr] = {f: a for (f, _), a in zip(fields, call.args)}
+    for k in call.keywords:
+        if k.arg in vals or k.arg not in [f for f, _ in fields]:
+            return None
+        vals[k.arg] = k.value  # type: ignore[index]
+    out = []
+    for f, d in fields:
+        if f in vals:
+            out.append(vals[f])
+        elif d is not None:
+            out.append(_clone(d))
+        else:
+            return None
+    return out
+
+
+def _scalarise_records(mods: dict[str, Module], inv: dict, log: list[str]) -> None:
+    """Scalar replacement of new record types: `r = Rec(a, b)` ... `r.x`, `*r`, `p, q = r` are read as the values the record was built from
+    (a refactoring that bundles values into a NamedTuple / dataclass to pass them around does not change which value reaches which position)."""
+    recs = _record_classes(mods, inv)
+    if not recs:
+        return
+
+    def ctor(e: ast.AST) -> tuple[str, list[ast.expr]] | None:
+        if isinstance(e, ast.Call):
+            nm = e.func.id if isinstance(e.func, ast.Name) else e.func.attr if isinstance(e.func, ast.Attribute) else None
+            if nm in recs:
+                args = _record_args(recs[nm], e)
+                if args is not None:
+                    return nm, args
+        return None
+
+    class Direct(ast.NodeTransformer):
+        """`Rec(..).f`, `*Rec(..)`, `Rec(..)[i]`, `a, b = Rec(..)`."""
+        def __init__(self) -> None:
+            self.n = 0
+
+        def visit_Attribute(self, node: ast.Attribute):  # noqa: N802
+            self.generic_visit(node)
+            c = ctor(node.value)
+            if c is not None and isinstance(node.ctx, ast.Load):
+                names = [f for f, _ in recs[c[0]]]
+                if node.attr in names and all(_pure(a) for a in c[1]):
+                    self.n += 1
+                    return ast.copy_location(_clone(c[1][names.index(node.attr)]), node)
+            return node
+
+        def visit_Subscript(self, node: ast.Subscript):  # noqa: N802
+            self.generic_visit(node)
+            c = ctor(node.value)
+            if c is not None and isinstance(node.ctx, ast.Load) and isinstance(node.slice, ast.Constant) and isinstance(node.slice.value, int) \
+                    and -len(c[1]) <= node.slice.value < len(c[1]) and all(_pure(a) for a in c[1]):
+                self.n += 1
+                return ast.copy_location(_clone(c[1][node.slice.value]), node)
+            return node
+
+        def _splice(self, elts: list[ast.expr]) -> list[ast.expr]:
+            out: list[ast.expr] = []
+            for e in elts:
+                c = ctor(e.value) if isinstance(e, ast.Starred) else None
+                if c is not None:
+                    out.extend(c[1])
+                    self.n += 1
+                else:
+                    out.append(e)
+            return out
+
+        def visit_Call(self, node: ast.Call):  # noqa: N802
+            self.generic_visit(node)
+            node.args = self._splice(node.args)
+            return node
+
+        def visit_Tuple(self, node: ast.Tuple):  # noqa: N802
+            self.generic_visit(node)
+            if isinstance(node.ctx, ast.Load):
+                node.elts = self._splice(node.elts)
+            return node
+
+        visit_List = visit_Tuple  # noqa: N815
+
+        def visit_Assign(self, node: ast.Assign):  # noqa: N802
+            self.generic_visit(node)
+            c = ctor(node.value)
+            if c is not None and len(node.targets) == 1 and isinstance(node.targets[0], (ast.Tuple, ast.List)) and len(node.targets[0].elts) == len(c[1]) \
+                    and not any(isinstance(t, ast.Starred) for t in node.targets[0].elts):
+                node.value = ast.copy_location(ast.Tuple(elts=list(c[1]), ctx=ast.Load()), node.value)
+                self.n += 1
+            return node
+
+    for mod in mods.values():
+        for q, _, fn in _functions_of(mod):
+            total = 0
+            for _round in range(6):
+                d = Direct()
+                fn.body = [d.visit(st) for st in fn.body]
+                total += d.n
+                # record locals: `r = Rec(...)`, bound once, used only field-wise
+                changed = False
+                params = set(_params(fn))
+                work: list[ast.AST] = [fn]
+                while work and not changed:
+                    node = work.pop()
+                    for fld in ("body", "orelse", "finalbody", "handlers"):
+                        b = getattr(node, fld, None)
+                        if not isinstance(b, list):
+                            continue
+                        for i, st in enumerate(b):
+                            if isinstance(st, ast.ExceptHandler):
+                                work.append(st)
+                                continue
+                            if not isinstance(st, ast.stmt):
+                                continue
+                            tgt = st.targets[0] if isinstance(st, ast.Assign) and len(st.targets) == 1 else st.target if isinstance(st, ast.AnnAssign) and st.value is not None else None
+                            c = ctor(st.value) if tgt is not None and isinstance(tgt, ast.Name) else None
+                            if c is not None and tgt.id not in params and _record_local_ok(fn, tgt.id, st, [f for f, _ in recs[c[0]]]):
+                                names = [f for f, _ in recs[c[0]]]
+                                fresh = {f: f"{tgt.id}__{f}" for f in names}
+                                b[i:i + 1] = [ast.copy_location(ast.Assign(targets=[ast.Name(id=fresh[f], ctx=ast.Store())], value=a), st) for f, a in zip(names, c[1])]
+                                _RecordUses(tgt.id, names, fresh).visit(fn)
+                                for x in b[i:i + len(names)]:
+                                    ast.fix_missing_locations(x)
+                                total += 1
+                                changed = True
+                                break
+                            if not isinstance(st, (*FuncNode, ast.ClassDef)):
+                                work.append(st)
+                        if changed:
+                            break
+                if not changed and d.n == 0:
+                    break
+            if total:
+                log.append(f"{mod.relpath} {q}: {total} use(s) of new record type(s) read field-wise ({', '.join(sorted(recs))[:80]})")
+
+
+def _record_local_ok(fn: ast.FunctionDef, name: str, binding: ast.stmt, fields: list[str]) -> bool:
+    """`name` is bound by `binding` only, and every other occurrence is `name.field`, `*name`, `name[k]` or the whole right-hand side of a tuple unpacking."""
+    for n in ast.walk(fn):
+        if isinstance(n, (ast.Lambda, *FuncNode)) and n is not fn and any(isinstance(x, ast.Name) and x.id == name for x in ast.walk(n)):
+            return False
+    parents: dict[int, ast.AST] = {}
+    for n in ast.walk(fn):
+        for ch in ast.iter_child_nodes(n):
+            parents[id(ch)] = n
+    for n in ast.walk(fn):
+        if not (isinstance(n, ast.Name) and n.id == name):
+            continue
+        par = parents.get(id(n))
+        if isinstance(n.ctx, ast.Store):
+            if par is not binding:
+                return False
+            continue
+        if isinstance(n.ctx, ast.Del):
+            return False
+        if isinstance(par, ast.Attribute) and par.value is n and par.attr in fields and isinstance(par.ctx, ast.Load):
+            continue
+        if isinstance(par, ast.Starred) and isinstance(parents.get(id(par)), (ast.Call, ast.Tuple, ast.List)):
+            continue
+        if isinstance(par, ast.Subscript) and par.value is n and isinstance(par.slice, ast.Constant) and isinstance(par.slice.value, int) and -len(fields) <= par.slice.value < len(fields) \
+                and isinstance(par.ctx, ast.Load):
+            continue
+        if isinstance(par, ast.Assign) and par.value is n and len(par.targets) == 1 and isinstance(par.targets[0], (ast.Tuple, ast.List)) and len(par.targets[0].elts) == len(fields):
+            continue
+        return False
+    return True
+
+
+class _RecordUses(ast.NodeTransformer):
+    def __init__(self, name: str, fields: list[str], fresh: dict[str, str]) -> None:
+        self.name, self.fields, self.fresh = name, fields, fresh
+
+    def _is(self, e: ast.AST) -> bool:
+        return isinstance(e, ast.Name) and e.id == self.name and isinstance(e.ctx, ast.Load)
+
+    def _all(self, at: ast.AST) -> list[ast.expr]:
+        return [ast.copy_location(ast.Name(id=self.fresh[f], ctx=ast.Load()), at) for f in self.fields]
+
+    def visit_Attribute(self, node: ast.Attribute):  # noqa: N802
+        if self._is(node.value) and node.attr in self.fields:
+            return ast.copy_location(ast.Name(id=self.fresh[node.attr], ctx=ast.Load()), node)
+        return self.generic_visit(node)
+
+    def visit_Subscript(self, node: ast.Subscript):  # noqa: N802
+        if self._is(node.value) and isinstance(node.slice, ast.Constant) and isinstance(node.slice.value, int):
+            return ast.copy_location(ast.Name(id=self.fresh[self.fields[node.slice.value]], ctx=ast.Load()), node)
+        return self.generic_visit(node)
+
+    def _splice(self, elts: list[ast.expr]) -> list[ast.expr]:
+        out: list[ast.expr] = []
+        for e in elts:
+            if isinstance(e, ast.Starred) and self._is(e.value):
+                out.extend(self._all(e))
+            else:
+                out.append(e)
+        return out
+
+    def visit_Call(self, node: ast.Call):  # noqa: N802
+        self.generic_visit(node)
+        node.args = self._splice(node.args)
+        return node
+
+    def visit_Tuple(self, node: ast.Tuple):  # noqa: N802
+        self.generic_visit(node)
+        if isinstance(node.ctx, ast.Load):
+            node.elts = self._splice(node.elts)
+        return node
+
+    visit_List = visit_Tuple  # noqa: N815
+
+    def visit_Assign(self, node: ast.Assign):  # noqa: N802
+        if self._is(node.value) and len(node.targets) == 1 and isinstance(node.targets[0], (ast.Tuple, ast.List)):
+            node.value = ast.copy_location(ast.Tuple(elts=self._all(node.value), ctx=ast.Load()), node.value)
+            return node
+        return self.generic_visit(node)
 
 
 # ---------------------------------------------------------------------------------------------------- context managers
@@ -1440,8 +1742,15 @@ def canonicalise(mods: dict[str, Module]) -> dict:
     inl = Inliner(mods, inv)
     inl.run()
     fwd_log: list[str] = []
+    _scalarise_records(mods, inv, fwd_log)
+    if any("record type" in x for x in fwd_log):
+        inl2 = Inliner(mods, inv)  # a helper that took a whole record can be bound now that the record is spelled out
+        inl2.run()
+        inl.log.extend(inl2.log)
+        _scalarise_records(mods, inv, fwd_log)
     _unroll_literal_loops(mods, fwd_log)
     _unroll_literal_comprehensions(mods, fwd_log)
+    _split_parallel_assign(mods, fwd_log)
     _Forward(mods, inv, fwd_log).run()
     _split_conditional_with(mods, fwd_log)
     fwd_log.extend(cm_log)
